@@ -11,7 +11,7 @@ def ex(text): return text
 
 CHECKS = {
  "C01": ("reference-model monitor (math/big group law) over generated scalar x point x receiver-state executions of the public API",
-         "Exploration: every execution of the five scalar-multiplication entry points is compared (pointer identity, coordinate validity, affine point, encoding) with an independent big-integer double-and-add, under several receiver states per case, with constructed inputs covering the whole group of order 8l, projective rescalings, non-canonical limb forms, digit-extreme scalars and all term counts; coverage of (position, digit) pairs of both recodings is measured. It cannot enumerate l x 8l inputs; it decides the property on what was run.", "5 C01"),
+         "Exploration: every execution of the five scalar-multiplication entry points is compared (pointer identity, coordinate validity, affine point, encoding) with an independent big-integer double-and-add, under several receiver states per case, with constructed inputs covering the whole group of order 8l, projective rescalings, non-canonical limb forms, digit-extreme scalars and all term counts; coverage of (position, digit) pairs of both recodings is measured; an optional in-package shim injected with -overlay additionally checks every recoding and every lookup-table entry a digit can select (all 544 basepoint (table, digit) pairs per run). It cannot enumerate l x 8l inputs; it decides the property on what was run.", "5 C01, 9.6"),
  "C02": ("reference-model monitor: affine Edwards addition law in math/big vs. Add/Subtract/Negate/MultByCofactor on structured (8x8 torsion x prime-order combinations) and sampled operand pairs",
          "Exploration: all 384 structured operand combinations (exceptional cases P=Q, Q=-P, small-order sums, identity) are walked repeatedly with fresh representations, plus independent pairs; each result is checked for validity and equality with the complete addition law. Sampling of the prime-order parts, not enumeration.", "5 C02"),
  "C03": ("two-run leakage-trace equality monitors: (a) source-instrumented build generated from the working tree (branches, indices, shift counts, divisors, foreign-call arguments); (b) machine-level instruction/memory-address traces of the uninstrumented binary under valgrind lackey",
@@ -48,8 +48,8 @@ CHECKS = {
          "Exploration of schedules: 40 (quick) / 600 (thorough) cold processes with 2-64 goroutines; contention is measured, not assumed. Only schedules the Go scheduler plus delays produce are seen.", "3.7, 5 C18"),
  "C19": ("history monitor with mutation steps: scribbling over every kind of returned value followed by probe calls with model-known answers, memory-overlap checks, purity memo, package-globals digest (in-process and across processes, cold and warm)",
          "Exploration: thousands of programs; every mutation is followed by probes; half of the processes use the tables for the first time after mutations.", "5 C19"),
- "C20": ("cross-build differential monitor: the same seeded workload in the default (assembly) and purego builds, per-chunk transcripts compared by the controller; math/big oracle and limb bound in each build; guard pages around the assembly operands",
-         "Exploration: Multiply/Square on limb-maximal reachable operands in all aliasing patterns at page edges, plus a deterministic whole-API program, under both configurations this machine can execute.", "3.7, 5 C20"),
+ "C20": ("cross-build differential monitor: the same seeded workload in the default (assembly), purego and GOARCH=386 builds, per-chunk transcripts compared by the controller; math/big oracle and limb bound in each build; guard pages around the assembly operands; callee-saved register (BP) monitor around the assembly calls",
+         "Exploration: Multiply/Square on limb-maximal reachable operands in all aliasing patterns at page edges, plus a deterministic whole-API program, under the two configurations the property names plus GOARCH=386 (portable code, 32-bit int), all executable on this machine.", "3.7, 5 C20, 9.6"),
 }
 NOT_YET = {}
 
